@@ -268,3 +268,36 @@ pub fn run_sub<T: Send + 'static>(
         tape: c.tape,
     }
 }
+
+/// A sub-execution whose tape is *nested* in the current run's tape: `[seed, len, cells…]`.
+/// Generating: the sub-run draws from a PRNG seeded by `seed` (mixed with `salt`), and the cells
+/// it consumed are appended to the run's record.  Replaying: the recorded cells are used.  So a
+/// replay file carries the schedule of every sub-execution explicitly, and the shrinker can
+/// simplify it.  `plain = true` runs the sub-execution on the all-zero tape (nothing recorded).
+pub fn run_sub_nested<T: Send + 'static>(
+    site: &'static str,
+    salt: u64,
+    plain: bool,
+    verbose: bool,
+    f: impl FnOnce() -> T + Send + 'static,
+) -> SubReport<T> {
+    if plain {
+        return run_sub(Tape::replay(vec![]), verbose, f);
+    }
+    let seed = ctx::ch(site, u32::MAX) as u64;
+    let replaying = ctx::with_ctx(|c| c.tape.is_replay());
+    if replaying {
+        let len = ctx::ch(site, 1 << 24) as usize;
+        let cells = ctx::with_ctx(|c| c.tape.take_raw(len));
+        run_sub(Tape::replay(cells), verbose, f)
+    } else {
+        let rep = run_sub(Tape::generate(seed | (salt << 32)), verbose, f);
+        let cells = rep.tape.clone();
+        ctx::with_ctx(|c| {
+            // the length cell, then the cells themselves
+            c.tape.append_raw(&[cells.len().min((1 << 24) - 1) as u32]);
+            c.tape.append_raw(&cells[..cells.len().min((1 << 24) - 1)]);
+        });
+        rep
+    }
+}
